@@ -68,6 +68,28 @@ def strategy_(draw, tier):
             if f and all(f['id'] != r.get('id') for r in records):
                 records.append(f)
                 n_units += 1
+    # an indel anchored on the last base of the start codon of a fusion donor: the units of a
+    # transcript share their record objects, and this record is rewritten in place by the
+    # first unit that meets it
+    for tid in sorted({r['tx'] for r in records if r['kind'] == 'fusion'}):
+        t = ref.tx(tid)
+        if not t.get('cds') or 'cds_start_NF' in t.get('tags', []) or not d.chance(0.3):
+            continue
+        tg = ref.tx_gene(tid)
+        p0 = t['cds'][0] + 2
+        if p0 + 4 >= len(tg) or any(tg[p0 + k] != tg[p0] + k for k in range(1, 5)):
+            continue
+        gseq = ref.gene_seq(ref.gene_of(tid)['id'])
+        g0 = tg[p0]
+        if d.chance(0.6):
+            rec = dict(kind='small', tx=tid, g=g0, ref=gseq[g0], alt=gseq[g0] + d.bases(
+                d.choice([3, 3, 6, 1, 2])))
+        else:
+            k = d.choice([3, 3, 1, 2])
+            rec = dict(kind='small', tx=tid, g=g0, ref=gseq[g0:g0 + k + 1], alt=gseq[g0])
+        records = [r for r in records if not (r['kind'] == 'small' and r['tx'] == tid and
+            r['g'] < g0 + len(rec['ref']) + 1 and g0 < r['g'] + len(r['ref']) + 1)]
+        records.append(rec)
     opts = cveval.gen_opts(d, cveval.STRICT_ENZYMES, alt=True, limits=False)
     opts['min_length'] = 5
     return dict(ref=refd, records=records, opts=opts, threads_mask=d.randint(1, 62),
